@@ -124,3 +124,12 @@ Fixpoint takeb (p : N -> bool) (s : str) : str :=
 
 Lemma takeb_dropb p s : takeb p s ++ dropb p s = s.
 Proof. induction s as [|x s IH]; cbn; [reflexivity|]. destruct (p x); cbn; congruence. Qed.
+
+(* ASCII literals for readability in models: lit "abc" = [97;98;99] *)
+Require Import Coq.Strings.String Coq.Strings.Ascii.
+Fixpoint lit (s : String.string) : str :=
+  match s with
+  | String.EmptyString => []
+  | String.String a r => N_of_ascii a :: lit r
+  end.
+Arguments lit s%string.
